@@ -32,6 +32,11 @@ DOMAIN = ["string keys only", "values: int, str, list, dict"]
 KEYS = ["a", "A", "b", "B", "layers", "LAYERS", "Zz"]
 VALS = [1, "x", [1], {}]
 
+# keyword names that look like parameter names of dict-like classes ("e" and "self" ARE parameter names of update and are left out)
+PARAM_LIKE = [{"values": {"a": 1}}, {"values": [["x", 1]], "b": 2}, {"values": None}, {"values": "s"},
+              {"args": [1], "kwargs": {"k": 1}, "items": 1, "data": "x", "other": {}, "mapping": [1], "key": 1, "value": 2, "default": 3, "d": 4,
+               "f": 5, "m": 6, "iterable": [], "dict": {}, "init": 1, "kw": 2, "factory": 3}]
+
 INV_STATE = {"evals": 0, "bad": []}
 
 
@@ -361,13 +366,24 @@ class Driver:
                 continue
             if core.canon(list(c.items())) != core.canon(items):
                 res.violation(kind, case, core.canon(list(c.items())), core.canon(items))
+        # keyword arguments named like the parameters such classes tend to have: every keyword is a key (VALUES is a Mapfile block)
+        for kw in PARAM_LIKE:
+            res.count("ctor_param_like_keywords")
+            try:
+                c = cls(*fac, **copy.deepcopy(kw))
+            except Exception as ex:
+                res.violation("ctor-kwargs-named-raises", dict(case, kwargs=core.canon(kw)), type(ex).__name__ + ": " + str(ex), "a dict")
+                continue
+            if core.canon(list(c.items())) != core.canon(list(kw.items())):
+                res.violation("ctor-kwargs-named", dict(case, kwargs=core.canon(kw)), core.canon(list(c.items())), core.canon(list(kw.items())))
 
 
 def run(ctx):
     drv = Driver(ctx)
     res = ctx.res
     allops = ops()
-    walkops = allops + ops(UNICODE_KEYS, extra=False) + [("update_map", [{"STRASSE": 1, "Straße": 2}]), ("update_kw", [{"ΜM": 1, "µm": 2}])]
+    walkops = allops + ops(UNICODE_KEYS, extra=False) + [("update_map", [{"STRASSE": 1, "Straße": 2}]), ("update_kw", [{"ΜM": 1, "µm": 2}])] + \
+        [("update_kw", [kw]) for kw in PARAM_LIKE] + [("update_both", [{"a": 1}, kw]) for kw in PARAM_LIKE[:2]]
     depth = 3 if ctx.quick else 4
     seen = set()
     for factory in (True, False):
